@@ -20,6 +20,8 @@ def woven(src, fn, nloops, k="0", fb_loops=2, fb_row="0"):
                        "loops": {fb_row: "RXV_ROW_LOOP_INVARIANT", str(int(fb_row) + 1): "RXV_COL_LOOP_INVARIANT"}}]}
 
 
+SEG_REPLAY = {"prog": "replay_fill_segment.c", "no_args": True, "flags": ["-O2", "-mssse3", "-mavx2"],
+              "sources": ["src/argon2_ref.c", "src/argon2_ssse3.c", "src/argon2_avx2.c", "src/argon2_core.c", "src/blake2/blake2b.c"]}
 CHECKS = ["--bounds-check", "--pointer-check", "--div-by-zero-check", "--undefined-shift-check", "--signed-overflow-check"]
 CASES = ["v10", "v13_pass0", "v13_later_passes"]
 
@@ -42,7 +44,7 @@ def simd(impl, vec):
          "tier": "thorough" if c == 0 else "quick",
          "entry": "h_fill_segment", "enforce": fn,
          "replace": ["randomx_argon2_index_alpha/rxv_index_alpha_use", "fill_block/rxv_fill_block_use"], "loop_contracts": True, "checks": CHECKS,
-         "expect_classes": ["postcondition", "precondition", "loop_invariant_base", "loop_invariant_step"], "expect_min": 10, "timeout": 3600, "mem_gb": 20, "weight": 5}
+         "expect_classes": ["postcondition", "precondition", "loop_invariant_base", "loop_invariant_step"], "expect_min": 10, "timeout": 3600, "mem_gb": 20, "weight": 5, "replay": SEG_REPLAY}
         for c in range(3)
     ]
 
@@ -58,6 +60,8 @@ OBLIGATIONS = [
     # supporting native checks (never counted as proof): the trusted intrinsic models against the CPU; fill_block against spec_G
     {"name": "intrinsic_models_match_cpu_sampled", "kind": "native", "bounded": "5.2 million random operand cases, every intrinsic / immediate used",
      "native": {"prog": "native_intrin_model.c", "sources": [], "flags": ["-O1", "-mssse3", "-mavx2"]}},
+    {"name": "fill_three_implementations_equal_rfc9106_on_reduced_instances", "kind": "native", "bounded": "one lane, 8 / 16 / 64 blocks, 1-3 passes, pre-filled memory, three implementations",
+     "native": dict(SEG_REPLAY)},
     {"name": "fill_block_three_implementations_equal_G_sampled", "kind": "native", "bounded": "20000 pseudo-random / structured block triples per implementation (200000 in the thorough tier)",
      "native": {"prog": "native_fill_block.c", "sources": ["src/argon2_core.c", "src/blake2/blake2b.c", "@suites/C10/native_wrap_ref.c", "@suites/C10/native_wrap_ssse3.c", "@suites/C10/native_wrap_avx2.c"],
                 "flags": ["-O2", "-mssse3", "-mavx2"], "args": ["20000"]}},
@@ -70,7 +74,7 @@ OBLIGATIONS = [
      "entry": "h_fill_segment", "enforce": "randomx_argon2_fill_segment_ref", "defines": ["RXV_CASE=%d" % c],
      "replace": ["randomx_argon2_index_alpha/rxv_index_alpha_use", "fill_block/rxv_fill_block_use"], "loop_contracts": True,
      "checks": CHECKS,
-     "expect_classes": ["postcondition", "precondition", "loop_invariant_base", "loop_invariant_step"], "expect_min": 10, "timeout": 1800, "mem_gb": 16, "weight": 3}
+     "expect_classes": ["postcondition", "precondition", "loop_invariant_base", "loop_invariant_step"], "expect_min": 10, "timeout": 1800, "mem_gb": 16, "weight": 3, "replay": SEG_REPLAY}
     for c in range(3)
 ] + simd("ssse3", "__m128i") + simd("avx2", "__m256i")
 # the initial hash H0 and the first two blocks are Blake2b computations over 48 + |key| bytes: the framing contracts of suite C11
